@@ -38,6 +38,7 @@ ASSUMPTIONS = [
     "SDP values come from cvxpy's default solver (SCS): order relations and equalities between two solver values are asserted to 2e-3, the no-signalling value against the certified LP optimum to 5e-4; a solve that warns 'Solution may be inaccurate', raises SolverError, returns a non-finite value or exceeds 30 s is inconclusive",
     "the see-saw's unseeded randomness is pinned by patching numpy.random.default_rng (None seed -> [s, k]) and np.random.seed(s); classical <= see-saw is not asserted (local optima)",
     "NPA level 2 is only evaluated when (A-1)X+(B-1)Y <= 6 and level '1+ab' when the moment matrix has <= 70 rows; in the history machine a drawn level that is too large for the game is replaced by the next smaller one",
+    "classical_value forks a multiprocessing.Pool (one worker per core) when it enumerates more than 1000 functions: every generator keeps that count (repaired and unrepaired formula) <= 1000 by construction, the branch above 1000 is exercised by the small sub-check classical_pool_branch (shapes beyond 1..4, oracle = own best-response enumeration instead of all pairs)",
     "BCS constraints are 0/1 arrays of shape (2,)*n depending on at least one variable (a constant constraint divides by zero in from_bcs_game: outside the domain)",
     "metamorphic invariance is asserted for the classical value, the non-signalling value and NPA level 1 (whose relaxation is invariant under a linear change of operator basis, coarse-graining of a losing answer and copying of a measurement); it is NOT asserted for intermediate/higher NPA levels because toqito's moment matrix for '1+ab' is labelling dependent (a looser but still valid bound)",
     "numpy einsum/Kronecker index algebra (row-major, first repetition most significant) is trusted as the product-game model; scipy highs is trusted after re-checking feasibility of its point to 1e-8",
@@ -90,7 +91,7 @@ def _shape_mode(draw, hi=4):
 
 
 @st.composite
-def _pred_fields(draw, shape, kinds=("rand01", "frac16", "float", "small")):
+def _pred_fields(draw, shape, kinds=("small", "rand01", "frac16", "float")):
     size = gen.prod(shape)
     ks = [k for k in kinds if not (k == "small" and size > 48)]
     fam = draw(st.sampled_from(ks))
@@ -125,9 +126,12 @@ def _tf(draw, shape, max_out=4, max_in=4, max_entries=160):
         "swap": draw(st.booleans()),
         "seed": draw(gen.SEED),
     }
-    # construction, not rejection: drop enlargements until the size budget is met
+    # construction, not rejection: drop enlargements until the size budget is met and classical_value stays in
+    # its single-process branch (the multiprocessing branch has its own small sub-check)
     for k in ("zx", "zy", "padA", "padB"):
-        if (A + tf["padA"]) * (B + tf["padB"]) * (X + tf["zx"]) * (Y + tf["zy"]) > max_entries:
+        fs = (A + tf["padA"], B + tf["padB"], X + tf["zx"], Y + tf["zy"])
+        cnt = max(H.toqito_enum_count(fs), H.toqito_enum_count((fs[1], fs[0], fs[3], fs[2])))  # either orientation (swap)
+        if gen.prod(fs) > max_entries or cnt > H.POOL_THRESHOLD:
             tf[k] = 0
     return tf
 
@@ -200,9 +204,17 @@ def _check_unchanged(game, snaps, where):
     req(H.snapshot(game.pred_mat) == snaps[1], f"pred_mat changed by {where}", "mutated:pred_mat")
 
 
-def _classical_vs_oracle(game, prob, pred, what=""):
+def _classical_value(game, allow_pool=False):
+    """classical_value() kept out of its multiprocessing branch (one Pool of cpu_count workers per call) except in the
+    dedicated sub-check"""
+    if not allow_pool and H.toqito_enum_count(np.shape(game.pred_mat)) > H.POOL_THRESHOLD:
+        raise Inconclusive("classical-value-pool-branch-outside-budget")
+    return float(game.classical_value())
+
+
+def _classical_vs_oracle(game, prob, pred, what="", allow_pool=False):
     snaps = (H.snapshot(game.prob_mat), H.snapshot(game.pred_mat))
-    val = game.classical_value()
+    val = _classical_value(game, allow_pool)
     exp, how = H.classical_oracle(np.asarray(prob, dtype=float), np.asarray(pred, dtype=float))
     val = float(val)
     if not abs(val - exp) <= H.TOL_EXACT:
@@ -216,7 +228,7 @@ def _classical_vs_oracle(game, prob, pred, what=""):
 
 def check_classical(case):
     prob, pred = H.build_game(case["game"])
-    game = _Game()(prob, pred)
+    game = _Game()(prob.copy(), pred.copy())
     _classical_vs_oracle(game, prob, pred)
 
 
@@ -226,8 +238,36 @@ def nt_classical(case):
 
 
 @st.composite
+def _pool_case(draw):
+    """shapes whose enumerated player has between 1001 and ~4100 answer functions (multiprocessing branch)"""
+    b, y = draw(st.sampled_from([(2, 10), (2, 11), (2, 12), (3, 7), (4, 5), (4, 6), (5, 5), (6, 4), (7, 4), (8, 4), (11, 3), (16, 3), (33, 2), (64, 2)]))
+    a = draw(st.integers(max(2, b - 1), b + (1 if (b + 1) ** y <= 8200 else 0)))
+    x = y + draw(st.integers(0, 1))
+    while a**x < b**y:
+        x += 1
+    shape = [a, b, x, y]
+    if draw(st.booleans()):
+        shape = [b, a, y, x]
+    spec = draw(_pred_fields(shape, kinds=("rand01", "frac16", "float")))
+    spec.update(draw(_prob_fields(shape[2], shape[3])))
+    return {"game": spec}
+
+
+def nt_pool(case):
+    return "pool," + (_asym_label(case["game"]["shape"]) or "A=B,X=Y")
+
+
+def check_classical_pool(case):
+    prob, pred = H.build_game(case["game"])
+    game = _Game()(prob.copy(), pred.copy())
+    _classical_vs_oracle(game, prob, pred, allow_pool=True)
+
+
+@st.composite
 def _dtype_case(draw):
-    shape = draw(_shape_mode(hi=3))
+    # equal alphabets: independent of the enumeration-count finding, so that the two findings do not mask each other
+    a = draw(st.integers(1, 3))
+    shape = [a, a, draw(st.integers(1, 3)), draw(st.integers(1, 3))]
     spec = draw(_pred_fields(shape, kinds=("rand01",)))
     spec.update(draw(_prob_fields(shape[2], shape[3])))
     return {"game": spec, "dtype": draw(st.sampled_from(["int64", "bool", "float32"]))}
@@ -237,9 +277,9 @@ def check_classical_dtype(case):
     """0/1 predicates stored in a non-float64 array are still predicates with values in [0,1]"""
     prob, pred = H.build_game(case["game"])
     predt = pred.astype(case["dtype"])
-    game = _Game()(prob, predt)
+    game = _Game()(prob.copy(), predt)
     snaps = (H.snapshot(game.prob_mat), H.snapshot(game.pred_mat))
-    val = float(game.classical_value())
+    val = _classical_value(game)
     exp, how = H.classical_oracle(prob, pred)
     if not abs(val - exp) <= 1e-6:
         sig = H.classical_signature(prob, pred, val)
@@ -266,8 +306,8 @@ def check_meta_classical(case):
     if abs(e0 - e1) > 1e-12:
         raise HarnessError(f"transformation is not value preserving: {e0} vs {e1}")
     G = _Game()
-    c0 = float(G(p0, v0).classical_value())
-    c1 = float(G(p1, v1).classical_value())
+    c0 = _classical_value(G(p0.copy(), v0.copy()))
+    c1 = _classical_value(G(p1.copy(), v1.copy()))
     if abs(c0 - c1) > H.TOL_EXACT:
         bad = (p1, v1, c1) if abs(c1 - e1) > H.TOL_EXACT else (p0, v0, c0)
         raise Violation(
@@ -386,7 +426,7 @@ def check_order(case):
     shape = pred.shape
     tol = H.TOL_SDP
     own_cl, _ = H.classical_oracle(prob, pred)
-    cl = float(game.classical_value())
+    cl = _classical_value(game)
     ns = H.call_value(game.nonsignaling_value)
     npa = {}
     for k in _levels_for(shape, case["levels"]):
@@ -481,11 +521,8 @@ def _reps_case(draw):
 
 
 def _classical_affordable(shape, r):
-    """python-level enumeration inside toqito stays below ~7000 iterations for the repaired and the unrepaired count"""
-    A, B, X, Y = (int(s) ** r for s in shape)
-    if A**X < B**Y:
-        A, B, X, Y = B, A, Y, X
-    return max(A, B) ** Y <= 7000
+    """the enumeration inside toqito stays in the single-process branch for the repaired and the unrepaired count"""
+    return H.toqito_enum_count([int(s) ** r for s in shape]) <= H.POOL_THRESHOLD
 
 
 def check_reps(case):
@@ -585,7 +622,7 @@ class GameModel:
 
     def _call(self, game, op, args):
         if op == "classical":
-            return float(game.classical_value())
+            return _classical_value(game)
         if op == "ns":
             return H.call_value(game.nonsignaling_value)
         if op == "npa":
@@ -648,6 +685,7 @@ def nt_history(case):
 
 SUBCHECKS = [
     SubCheck("classical_bruteforce", check_classical, _classical_case, nt_classical, quick=4000, thorough=60000),
+    SubCheck("classical_pool_branch", check_classical_pool, _pool_case, nt_pool, quick=40, thorough=300, shards=2, case_timeout=120),
     SubCheck("classical_pred_dtype", check_classical_dtype, _dtype_case, lambda c: "dtype:" + c["dtype"], quick=300, thorough=3000, shards=4),
     SubCheck("metamorphic_classical", check_meta_classical, lambda: st.builds(lambda g: {"game": g}, _family_game(fams=("xor", "modk", "unique", "bcs", "rand01", "frac16", "float"), max_entries=256)), nt_meta, quick=1200, thorough=20000),
     SubCheck("metamorphic_sdp", check_meta_sdp, _meta_sdp_case, nt_meta, quick=48, thorough=700, case_timeout=150),
